@@ -307,6 +307,7 @@ def run(ctx: Ctx) -> None:
     for d in pure_new.values():
         ctx.violation(d, {"case": {"name": eval(d["element"].split(" is_class")[0])}})  # noqa: S307 - repr of a str
     ctx.add_sample({"identifier": "__get__function___name__", "reference": names.ref_convert("__get__function___name__"), "class": names.ref_convert("some_class_name", True)})
+    engine.run_atheris(ctx, "c09", runs=ctx.n(20000, 2000000), shards=ctx.n(2, 12), max_len=64)
     failures = engine.search(ctx, MOD, shards=ctx.n(16, 96), examples=ctx.n(8, 30))
     engine.report_failures(ctx, MOD, failures)
     engine.replay_known(ctx, MOD)
